@@ -276,6 +276,39 @@ impl Stmt {
         })
     }
 
+    /// `Clone::clone_from` of the family (what `a.clone_from(&b)` calls)
+    pub fn clone_from_value(&mut self, other: &Stmt) {
+        match (self, other) {
+            (Stmt::Select(a), Stmt::Select(b)) => a.clone_from(b),
+            (Stmt::Window(a), Stmt::Window(b)) => a.clone_from(b),
+            (Stmt::Update(a), Stmt::Update(b)) => a.clone_from(b),
+            (Stmt::Delete(a), Stmt::Delete(b)) => a.clone_from(b),
+            (Stmt::Insert(a), Stmt::Insert(b)) => a.clone_from(b),
+            (Stmt::OnConflict(a), Stmt::OnConflict(b)) => a.clone_from(b),
+            (Stmt::WithClause(a), Stmt::WithClause(b)) => a.clone_from(b),
+            (Stmt::Cte(a), Stmt::Cte(b)) => a.clone_from(b),
+            (Stmt::WithQuery(a), Stmt::WithQuery(b)) => a.clone_from(b),
+            (Stmt::TableCreate(a), Stmt::TableCreate(b)) => a.clone_from(b),
+            (Stmt::TableAlter(a), Stmt::TableAlter(b)) => a.clone_from(b),
+            (Stmt::TableDrop(a), Stmt::TableDrop(b)) => a.clone_from(b),
+            (Stmt::TableRename(a), Stmt::TableRename(b)) => a.clone_from(b),
+            (Stmt::TableTruncate(a), Stmt::TableTruncate(b)) => a.clone_from(b),
+            (Stmt::ColumnDef(a), Stmt::ColumnDef(b)) => a.clone_from(b),
+            (Stmt::IndexCreate(a), Stmt::IndexCreate(b)) => a.clone_from(b),
+            (Stmt::IndexDrop(a), Stmt::IndexDrop(b)) => a.clone_from(b),
+            (Stmt::TableIndex(a), Stmt::TableIndex(b)) => a.clone_from(b),
+            (Stmt::FkCreate(a), Stmt::FkCreate(b)) => a.clone_from(b),
+            (Stmt::FkDrop(a), Stmt::FkDrop(b)) => a.clone_from(b),
+            (Stmt::TableFk(a), Stmt::TableFk(b)) => a.clone_from(b),
+            (Stmt::TypeCreate(a), Stmt::TypeCreate(b)) => a.clone_from(b),
+            (Stmt::TypeDrop(a), Stmt::TypeDrop(b)) => a.clone_from(b),
+            (Stmt::TypeAlter(a), Stmt::TypeAlter(b)) => a.clone_from(b),
+            (Stmt::ExtCreate(a), Stmt::ExtCreate(b)) => a.clone_from(b),
+            (Stmt::ExtDrop(a), Stmt::ExtDrop(b)) => a.clone_from(b),
+            (a, b) => panic!("HARNESS: clone_from across families {:?} {:?}", a.family(), b.family()),
+        }
+    }
+
     pub fn debug(&self) -> String {
         each_stmt!(self, x => format!("{:?}", x))
     }
